@@ -258,6 +258,14 @@ parse_next_record_header:
     */
     if (ssl->rec.type == SSL_RECORD_TYPE_CHANGE_CIPHER_SPEC)
     {
+        if (ssl->hsState == SSL_HS_DONE)
+        {
+            /* RFC 8446, 5.: a change_cipher_spec record is ignored only
+               between the first ClientHello and the peer's Finished; on an
+               established connection it is an unexpected message. */
+            ssl->err = SSL_ALERT_UNEXPECTED_MESSAGE;
+            goto encodeResponse;
+        }
         rc = tls13ParseChangeCipherSpec(ssl, &pb, requiredLen);
         HANDLE_PARSE_RC(rc, SSL_ALERT_ILLEGAL_PARAMETER);
         psTraceInfo("Ignoring change_cipher_spec...\n");
